@@ -257,6 +257,8 @@ func (w *iterWorld) Gen(seed uint64, tier string) *Plan {
 	}
 	if floatOK("C08", cfg.Kind) && r.P(1, 12) {
 		useFloat(r, &cfg)
+	} else if anyOK("C08", cfg.Kind) && r.P(1, 12) {
+		useAny(&cfg)
 	}
 	p := &Plan{World: "iter", Cfg: cfg}
 	attach(p)
